@@ -22,11 +22,11 @@ import (
 )
 
 type sealWorld struct {
-	ab                  *accountant.AccountingBook
+	ab                   *accountant.AccountingBook
 	node, gr, i, r, s, m *wallet.Wallet
-	tip                 accountant.Vertex
-	enc                 *json.Encoder
-	n                   int
+	tip                  accountant.Vertex
+	enc                  *json.Encoder
+	n                    int
 }
 
 func newSealWorld(enc *json.Encoder) *sealWorld {
@@ -147,7 +147,9 @@ func sealMain(args []string) {
 			each("vsig.corrupt", "bit", func(m *accountant.Vertex) { m.Signature = flipBit(v.Signature, b) })
 			each("isig.corrupt", "bit", func(m *accountant.Vertex) { m.Transaction.IssuerSignature = flipBit(v.Transaction.IssuerSignature, b) })
 			if cs {
-				each("rsig.replace", "bit", func(m *accountant.Vertex) { m.Transaction.ReceiverSignature = flipBit(v.Transaction.ReceiverSignature, b) })
+				each("rsig.replace", "bit", func(m *accountant.Vertex) {
+					m.Transaction.ReceiverSignature = flipBit(v.Transaction.ReceiverSignature, b)
+				})
 			}
 		}
 		for b := 0; b < 64; b++ {
@@ -172,7 +174,9 @@ func sealMain(args []string) {
 			each("data.flip", "bit", func(m *accountant.Vertex) { m.Transaction.Data = flipBit(v.Transaction.Data, b) })
 		}
 		each("subject.extend", "extend", func(m *accountant.Vertex) { m.Transaction.Subject += "x" })
-		each("subject.extend", "truncate", func(m *accountant.Vertex) { m.Transaction.Subject = m.Transaction.Subject[:len(m.Transaction.Subject)-1] })
+		each("subject.extend", "truncate", func(m *accountant.Vertex) {
+			m.Transaction.Subject = m.Transaction.Subject[:len(m.Transaction.Subject)-1]
+		})
 		each("data.extend", "extend", func(m *accountant.Vertex) { m.Transaction.Data = append(m.Transaction.Data, 'x') })
 		each("data.truncate", "truncate", func(m *accountant.Vertex) { m.Transaction.Data = m.Transaction.Data[:len(m.Transaction.Data)-1] })
 		each("data.truncate", "empty", func(m *accountant.Vertex) { m.Transaction.Data = nil })
@@ -220,7 +224,10 @@ func sealMain(args []string) {
 			each(fld+".replace", "other", func(m *accountant.Vertex) { set(m, w.m.Address()) })
 		}
 		// signatures by another wallet over the same digest
-		each("vsig.replace", "other", func(m *accountant.Vertex) { _, m.Signature = w.m.Sign(v.Hash[:]); m.Signature = signDigest(w.m, v.Hash) })
+		each("vsig.replace", "other", func(m *accountant.Vertex) {
+			_, m.Signature = w.m.Sign(v.Hash[:])
+			m.Signature = signDigest(w.m, v.Hash)
+		})
 		each("isig.replace", "other", func(m *accountant.Vertex) { m.Transaction.IssuerSignature = signDigest(w.m, v.Transaction.Hash) })
 		each("rsig.replace", "other", func(m *accountant.Vertex) { m.Transaction.ReceiverSignature = signDigest(w.m, v.Transaction.Hash) })
 		// swapping fields between two valid vertices
